@@ -8,6 +8,7 @@ cp /repo/Cargo.lock deps/astdeps/Cargo.lock
 ( cd deps/astdeps && CARGO_TARGET_DIR=../../build/astdeps-target cargo +1.98.1-x86_64-unknown-linux-gnu build --offline --quiet )
 python3 tools/gen_astspec.py
 python3 tools/gen_lspspec.py
+python3 tools/gen_lspspec_main.py
 cp /repo/Cargo.lock replay/Cargo.lock
 ( cd replay && CARGO_TARGET_DIR=../build/replay-target cargo build --offline --quiet )
 # the server binary for handler-level (stdio JSON-RPC) replays
